@@ -113,6 +113,12 @@ pub fn rational_carriers(rng: &mut Rng, n_random: usize) -> Vec<Carrier> {
         (1 << 30, 3),
         (65537, 65536),
         (46341, 46340),
+        // partners that make every representation-pair fallback show at every seed
+        (-1, 3),
+        (-16, 153),
+        (225, 4),
+        (27, 44),
+        (-2147483647, 2),
     ];
     for _ in 0..n_random {
         let n = if rng.bool() { rng.range(-(m as i64), m as i64) as i32 } else { rng.range(-1000, 1000) as i32 };
